@@ -164,3 +164,59 @@ def rule_growable(rep, fb, floor=4):
             tomember = bool(find_all((dst,), lambda n: n == ("member", ("this",), "ptr_")))
             r.check(not tomember, "GrowableBuffer::%s:memcpy" % f["name"], "%s:%d" % (f["file"], c[-1]), "GrowableBuffer::%s memcpy's into the shared ptr_ buffer" % f["name"], detail="memcpy into the new buffer only")
     return r.done()
+
+
+def rule_builder_discipline(rep, fb, floor=10):
+    """four small necessary conditions on the builder classes (src/libawkward/builder)"""
+    from .lints import _norm_len, _noline
+    r = rep.rule("BUILDER.discipline", "(a) a conversion that copies an old buffer item by item into a new one loops exactly to the length it then declares with set_length; (b) every parameter of a value-appending builder method is read "
+                 "(an ignored `encoding` means byte strings are stored as strings); (c) clear() does not put length_ into the negative 'fields not known yet' state while keeping contents_; "
+                 "(d) a node built around X->content() does not take X->content()'s own parameters (they belong to the inner node)", floor=floor)
+    bfs = [f for f in fb.lib_funcs(inst=False) if "/builder/" in f["file"]]
+    if len(bfs) < 150:
+        raise AnalysisError("builder functions not found")
+    n = [0, 0, 0, 0]
+    for f in bfs:
+        # (a)
+        sl = find_all(f["body"], lambda k: k[0] == "mcall" and k[1] == "set_length" and k[4])
+        loops = [lp for lp in find_all(f["body"], lambda k: k[0] == "for") if find_all(lp[2], lambda k: k[0] == "assign" and k[1][0] == "idx")]
+        if sl and loops:
+            want = repr(_norm_len(sl[0][4][0], {}))
+            for lp in loops:
+                c = lp[1]
+                if c[0] == "bin" and c[1] == "<":
+                    n[0] += 1
+                    r.check(repr(_norm_len(c[3], {})) == want, "%s#copy-loop#%d" % (f["qual"], n[0]), "%s:%d" % (f["file"], lp[-1]),
+                            "%s copies items up to %s but declares the new buffer's length as %s" % (f["qual"], str(_noline(c[3]))[:60], str(_noline(sl[0][4][0]))[:60]), detail="loop bound == set_length argument")
+        # (b)
+        if f["name"] in ("null", "boolean", "integer", "real", "complex", "datetime", "timedelta", "string", "bytestring", "append", "field", "index") and (f.get("cls") or "").endswith("Builder") \
+                and (f.get("cls") or "") not in ("FormBuilder", "LayoutBuilder", "EmptyArrayBuilder") and "layoutbuilder" not in f["file"]:
+            body = f["body"]
+            trivial = len(body) <= 1 and body and body[0][0] in ("throw", "return")
+            if not trivial and f["params"]:
+                used = {v[1] for v in find_all(body, lambda k: k[0] == "var")}
+                for pn, pt in f["params"]:
+                    if not pn:
+                        continue
+                    n[1] += 1
+                    r.check(pn in used, "%s#param:%s" % (f["qual"], pn), "%s:%d" % (f["file"], f["line"]), "%s never reads its parameter `%s`" % (f["qual"], pn), detail="parameter read")
+        # (c)
+        if f["name"] == "clear" and (f.get("cls") or "").endswith("Builder"):
+            neg = find_all(f["body"], lambda k: k[0] == "assign" and k[1] == ("member", ("this",), "length_") and (k[2] == ("const", -1) or (k[2][0] == "un" and k[2][1] == "-")))
+            guarded = [a for a in neg if any(find_all(iff[2], lambda k: k is a) for iff in find_all(f["body"], lambda k: k[0] == "if"))]
+            emptied = bool(find_all(f["body"], lambda k: k[0] == "mcall" and k[1] == "clear" and k[3] == ("member", ("this",), "contents_")))
+            has_contents = bool(find_all(f["body"], lambda k: k == ("member", ("this",), "contents_")))
+            if has_contents or neg:
+                n[2] += 1
+                r.check(not [a for a in neg if a not in guarded] or emptied, "%s#sentinel" % f["qual"], "%s:%d" % (f["file"], f["line"]),
+                        "%s sets length_ to the negative 'not begun' sentinel but keeps contents_: length() is then negative and keys/contents disagree" % f["qual"], detail="length_ stays >= 0 or contents_ emptied")
+        # (d)
+        for m in find_all(f["body"], lambda k: k[0] in ("make", "ctor") and len(k[2]) >= 3 and str(k[1]).split("<")[0].endswith(("Array64", "Array32", "ArrayU32", "Array", "Array8_64"))):
+            a1 = m[2][1]
+            if a1[0] == "mcall" and a1[1] == "parameters":
+                owner = repr(_norm_len(a1[3], {}))
+                others = [repr(_norm_len(x, {})) for x in m[2][2:]]
+                n[3] += 1
+                r.check(owner not in others, "%s#%s#params#%d" % (f["qual"], m[1], n[3]), "%s:%d" % (f["file"], m[-1] if isinstance(m[-1], int) else f["line"]),
+                        "%s builds a %s around a node and also gives it that inner node's parameters" % (f["qual"], m[1]), detail="parameters of the replaced node, not of its content")
+    return r.done()
